@@ -184,6 +184,8 @@ fn typedefs(ms: &[Member], two_members: bool) -> Vec<TypeDef> {
         out.push(TypeDef::Alias(*m));
     }
     out.push(TypeDef::Object(vec![]));
+    // a union without variants still holds unknown variants: never safe
+    out.push(TypeDef::Union(vec![]));
     for a in ms {
         out.push(TypeDef::Object(vec![*a]));
         out.push(TypeDef::Union(vec![*a]));
@@ -357,12 +359,27 @@ struct Packed {
 }
 
 fn run_batch(batch_no: usize, graphs: &[(usize, &Graph)], r: &mut Report) {
+    let items: Vec<Item> = graphs.iter().map(|(gi, g)| Item { gi: *gi, graph: g, orders: vcommon::enumerate::permutations(g.len()), label: None }).collect();
+    run_items(batch_no, &items, r);
+}
+
+/// one graph with the endpoint orders to try (an order lists the types that get an endpoint, in
+/// emission order); `label` replaces the graph text in signatures for the long-chain family
+struct Item<'a> {
+    gi: usize,
+    graph: &'a Graph,
+    orders: Vec<Vec<usize>>,
+    label: Option<(String, Value)>,
+}
+
+fn run_items(batch_no: usize, items: &[Item], r: &mut Report) {
     let mut types = vec![json!({"type": "enum", "enum": {"typeName": {"name": "SharedEnum", "package": "com.verif"}, "values": [{"value": "A"}]}})];
     let mut endpoints = vec![];
     let mut packed = vec![];
-    for (gi, g) in graphs {
+    for it in items {
+        let (gi, g) = (&it.gi, it.graph);
         let n = g.len();
-        for (k, order) in vcommon::enumerate::permutations(n).into_iter().enumerate() {
+        for (k, order) in it.orders.clone().into_iter().enumerate() {
             let names: Vec<String> = (0..n).map(|i| format!("G{}K{}T{}", gi, k, i)).collect();
             for (i, t) in g.iter().enumerate() {
                 types.push(typedef_ir(&names[i], t, &names));
@@ -400,7 +417,16 @@ fn run_batch(batch_no: usize, graphs: &[(usize, &Graph)], r: &mut Report) {
             return;
         }
     };
-    let by_graph: BTreeMap<usize, &Graph> = graphs.iter().map(|(i, g)| (*i, *g)).collect();
+    let by_graph: BTreeMap<usize, &Graph> = items.iter().map(|it| (it.gi, it.graph)).collect();
+    let labels: BTreeMap<usize, &(String, Value)> = items.iter().filter_map(|it| it.label.as_ref().map(|l| (it.gi, l))).collect();
+    let text_of = |gi: usize, g: &Graph| labels.get(&gi).map(|l| l.0.clone()).unwrap_or_else(|| graph_text(g));
+    let case_of = |gi: usize, g: &Graph, mut extra: Value| {
+        match labels.get(&gi) {
+            Some(l) => extra["chain"] = l.1.clone(),
+            None => extra["graph"] = json!(graph_text(g)),
+        }
+        extra
+    };
     // observed[graph][type] = set of verdicts over all orders and both traits
     let mut observed: BTreeMap<usize, Vec<Vec<(bool, String)>>> = BTreeMap::new();
     for p in &packed {
@@ -424,9 +450,9 @@ fn run_batch(batch_no: usize, graphs: &[(usize, &Graph)], r: &mut Report) {
                     r.outcome(if got { "safe:agrees-with-model" } else { "not-safe:agrees-with-model" });
                 } else {
                     r.violation(
-                        format!("C08|{}|graph={}|order={}|arg=T{}|{}", if got { "marked-safe-but-can-hold-unsafe-data" } else { "safe-type-not-marked-safe" }, graph_text(g), order_text, ti, trait_name),
-                        format!("graph {}: endpoints evaluated in order {} ({} trait): argument of type T{} is {}marked safe, the log-safety rules say {}", graph_text(g), order_text, trait_name, ti, if got { "" } else { "not " }, if want[*ti] { "safe" } else { "not safe" }),
-                        json!({"graph": graph_text(g), "order": p.order, "arg": ti, "trait": trait_name, "types": g.len()}),
+                        format!("C08|{}|graph={}|order={}|arg=T{}|{}", if got { "marked-safe-but-can-hold-unsafe-data" } else { "safe-type-not-marked-safe" }, text_of(p.graph, g), order_text, ti, trait_name),
+                        format!("graph {}: endpoints evaluated in order {} ({} trait): argument of type T{} is {}marked safe, the log-safety rules say {}", text_of(p.graph, g), order_text, trait_name, ti, if got { "" } else { "not " }, if want[*ti] { "safe" } else { "not safe" }),
+                        case_of(p.graph, g, json!({"order": p.order, "arg": ti, "trait": trait_name, "types": g.len()})),
                     );
                 }
             }
@@ -440,12 +466,60 @@ fn run_batch(batch_no: usize, graphs: &[(usize, &Graph)], r: &mut Report) {
                 r.outcome("ORDER-DEPENDENT");
                 let g = by_graph[&gi];
                 r.violation(
-                    format!("C08|order-dependent|graph={}|arg=T{}", graph_text(g), ti),
-                    format!("graph {}: whether an argument of type T{} is marked safe depends on the evaluation order: safe under {:?}, not safe under {:?}", graph_text(g), ti, obs.iter().filter(|o| o.0).map(|o| &o.1).collect::<Vec<_>>(), obs.iter().filter(|o| !o.0).map(|o| &o.1).collect::<Vec<_>>()),
-                    json!({"graph": graph_text(g), "arg": ti, "types": g.len()}),
+                    format!("C08|order-dependent|graph={}|arg=T{}", text_of(gi, g), ti),
+                    format!("graph {}: whether an argument of type T{} is marked safe depends on the evaluation order: safe under {:?}, not safe under {:?}", text_of(gi, g), ti, obs.iter().filter(|o| o.0).map(|o| &o.1).collect::<Vec<_>>(), obs.iter().filter(|o| !o.0).map(|o| &o.1).collect::<Vec<_>>()),
+                    case_of(gi, g, json!({"arg": ti, "types": g.len()})),
                 );
             }
         }
+    }
+}
+
+/// long reference chains: T0 -> T1 -> ... -> T(len-1), the last type decides (a SAFE string or
+/// an undeclared one); links are objects with an optional member, or alternate with aliases of
+/// lists. Endpoints take the head, the middle and the tail in several orders (the memo is
+/// filled from different ends)
+fn chain_graph(len: usize, links: &str, end: &str) -> Graph {
+    (0..len)
+        .map(|i| {
+            if i + 1 == len {
+                TypeDef::Object(vec![if end == "safe" { Member::DeclSafe } else { Member::Str }])
+            } else if links == "mixed" && i % 2 == 1 {
+                TypeDef::Alias(Member::Ref(Wrap::List, i + 1))
+            } else {
+                TypeDef::Object(vec![Member::Ref(Wrap::Opt, i + 1)])
+            }
+        })
+        .collect()
+}
+
+fn chain_orders(len: usize) -> Vec<Vec<usize>> {
+    let (mid, last) = (len / 2, len - 1);
+    let mut o = vec![vec![0], vec![mid, 0], vec![0, mid], vec![last, 0], vec![last, mid, 0], vec![0, mid, last]];
+    for x in o.iter_mut() {
+        x.dedup();
+    }
+    o.retain(|x| {
+        let mut y = x.clone();
+        y.sort();
+        y.dedup();
+        y.len() == x.len()
+    });
+    o.sort();
+    o.dedup();
+    o
+}
+
+fn chains(lens: &[usize], r: &mut Report) {
+    for (n, len) in lens.iter().enumerate() {
+        let mut graphs = vec![];
+        for links in ["obj", "mixed"] {
+            for end in ["safe", "str"] {
+                graphs.push((chain_graph(*len, links, end), format!("chain(len={},links={},end={})", len, links, end), json!({"len": len, "links": links, "end": end})));
+            }
+        }
+        let items: Vec<Item> = graphs.iter().enumerate().map(|(i, (g, text, j))| Item { gi: i, graph: g, orders: chain_orders(*len), label: Some((text.clone(), j.clone())) }).collect();
+        run_items(100_000 + n, &items, r);
     }
 }
 
@@ -568,6 +642,16 @@ pub fn run(args: &Args) -> Report {
     if let Some(path) = &args.replay {
         let v = vcommon::load_replay(path);
         let want = v["case"]["graph"].as_str().unwrap_or("").to_string();
+        if let Some(len) = v["case"]["chain"]["len"].as_u64() {
+            let lens = [len as usize];
+            let mut rr = std::thread::Builder::new().stack_size(256 << 20).spawn(move || {
+                let mut r = Report::new("C08", "model_checking");
+                chains(&lens, &mut r);
+                r
+            }).unwrap().join().unwrap();
+            rr.exhaustive = false;
+            return rr;
+        }
         if want.is_empty() {
             argument_declarations(&mut report);
         } else {
@@ -596,6 +680,14 @@ pub fn run(args: &Args) -> Report {
         report.merge(p);
     }
     argument_declarations(&mut report);
+    let lens: Vec<usize> = if thorough { vec![2, 3, 16, 64, 100, 127, 128, 129, 130, 200, 255, 256, 257, 300, 513] } else { vec![2, 16, 127, 128, 129, 130, 257] };
+    report.bound("chain_lengths", json!(lens));
+    let chain_report = std::thread::Builder::new().stack_size(256 << 20).spawn(move || {
+        let mut r = Report::new("C08", "model_checking");
+        chains(&lens, &mut r);
+        r
+    }).unwrap().join().unwrap();
+    report.merge(chain_report);
     report.sample("graph", json!({"graph": "T0=obj{opt<T1>,str};T1=obj{opt<T0>}", "orders": ["T0,T1", "T1,T0"], "model": {"T0": false, "T1": false}}));
     report.sample("graph3", json!({"graph": "T0=alias(list<T1>);T1=obj{plain<T2>};T2=union{safe}", "orders": 6}));
     report.bound("graphs_2_types", n2);
@@ -603,7 +695,7 @@ pub fn run(args: &Args) -> Report {
     report.bound("member_alphabet", json!(members(2, thorough).iter().map(|m| format!("{:?}", m)).collect::<Vec<_>>()));
     report.bound("orders", "every permutation of the endpoints (= order of first touch), sync trait then async trait");
     report.nontrivial = report.states;
-    report.rule = "states = (type graph, endpoint order): every graph of 2 named types over alias / object (0-2 members) / union (1-2 members) with at least one inter-type reference, and of 3 types with one-member definitions, x every order; the generator's `safe` markers (read back from the emitted server traits with syn) are compared with the greatest-fixed-point model for every argument, and must not depend on the order".into();
+    report.rule = "states = (type graph, endpoint order): every graph of 2 named types over alias / object (0-2 members) / union (1-2 members) with at least one inter-type reference, and of 3 types with one-member definitions, x every order; reference chains of the listed lengths (object / alias-of-list links, safe or undeclared tail) with endpoints on head / middle / tail in six orders; the generator's `safe` markers (read back from the emitted server traits with syn) are compared with the greatest-fixed-point model for every argument, and must not depend on the order".into();
     report.assumptions.push("graphs with more types / members behave like compositions of these (the memo is per type name)".into());
     report
 }
